@@ -8,6 +8,23 @@ NAMES = ["kill_thread", "kill_process", "trap", "errno", "trace", "log", "allow"
          "LessOrEqual", "BitsSet", "BitsNotSet", "user_notif", "unknown", "kill", "deny", "0"]
 
 
+# what yaml.Marshal makes of the profiler's debug listing (cmd/seccomp-profiler writeDebugYAML)
+DEBUG_SECTION = """all_syscalls:
+- num: 60
+  name: exit
+  caller: runtime.exit
+  function: runtime.exit
+  location: /usr/local/go/src/runtime/sys_linux_amd64.s:57
+  assembly: MOVL $0x3c, AX
+- num: 1
+  name: write
+  caller: runtime.write1
+  function: runtime.write1
+  location: /usr/local/go/src/runtime/sys_linux_amd64.s:97
+  assembly: MOVL $0x1, AX
+"""
+
+
 def check(ctx, replay=None):
     th = ctx.tier == "thorough"
     bindir = ctx.harness()
@@ -81,7 +98,7 @@ TagsInv == TagsAgree
         rnd = random.Random(ctx.seed)
         idxs = list(range(len(pols)))
         rnd.shuffle(idxs)
-        nrun = nbig = nrefused = 0
+        nrun = nbig = nrefused = nsect = 0
         for n, i in enumerate(idxs[:(len(idxs) if th else 160)]):
             yml, want = os.path.join(emit, "pol_%d.yml" % i), os.path.join(emit, "pol_%d.want" % i)
             if not (os.path.exists(yml) and os.path.exists(want)):
@@ -95,6 +112,14 @@ TagsInv == TagsAgree
                 yml = os.path.join(emit, alt % i)
             else:
                 form = "documented YAML"
+            if n % 6 == 4 and form == "documented YAML" and open(yml).read().startswith("seccomp:"):
+                # the document seccomp-profiler -format config -d writes: its debug section in front of the policy (and, every other time, a
+                # section of some other tool behind it); the command reads the seccomp section of the document
+                form = "documented YAML behind the profiler's debug section"
+                body = open(yml).read()
+                with open(yml, "w") as f:
+                    f.write(DEBUG_SECTION + "\n" + body + ("" if n % 12 == 4 else "\nlogging:\n  level: debug\n"))
+                nsect += 1
             if n % 3 == 0 and form == "documented YAML":
                 lines = open(yml).read().splitlines(True)
                 size = 1100000 if (th and n % 9 == 0) else 70000
@@ -105,6 +130,15 @@ TagsInv == TagsAgree
                 nbig += 1
             prog, rc, err = cmdfam.sandbox_installs(sb, yml, emit, str(i))
             nrun += 1
+            if prog is None and rc is not None and rc > 0:
+                # the command exited by itself before it had a program to install (the dump is written before the kernel is asked): it refused
+                # the text of a policy that compiles in memory - that is not "the same program"
+                nrefused += 1
+                ctx.violation("policy %d read by the sandbox command from a %s file (%s, %s) is refused (exit %d: %s) although the equivalent in-memory policy compiles"
+                              % (i, "%d-byte padded" % size if size else "plain", form, os.path.basename(yml), rc, (err or "").strip()[-160:]),
+                              {"what": "cmd/sandbox configuration path", "policy": pols[i], "padding_bytes": size, "form": form, "yaml_head": open(yml).read()[:900],
+                               "stderr": err, "how": "./check C14 quick"})
+                continue
             if prog is None:
                 nrefused += 1
                 if nrefused <= 3:
@@ -116,7 +150,7 @@ TagsInv == TagsAgree
                               {"what": "cmd/sandbox configuration path", "policy": pols[i], "padding_bytes": size, "form": form, "yaml_head": open(yml).read()[:600],
                                "how": "./check C14 quick"})
         ctx.cov["evaluations"] += nrun
-        ctx.cov["sandbox_command_reads"] = {"files": nrun, "padded_beyond_64KiB": nbig, "nothing_installed": nrefused}
+        ctx.cov["sandbox_command_reads"] = {"files": nrun, "padded_beyond_64KiB": nbig, "with_other_top_level_sections": nsect, "nothing_installed": nrefused}
         if nrun and nrefused > nrun // 2:
             raise vlib.Machinery("the overlay build of the sandbox installs nothing for most policies (%d of %d)" % (nrefused, nrun))
     ctx.cov["parse_cases"] = len(cases)
